@@ -744,6 +744,15 @@ func (ex *Exec) chanRecv(ch *Chan, blocking bool) (Value, bool) {
 		return zero(ch.elemT), false
 	}
 	if ch.ticker {
+		// vx.OnTick(n, f): after n ticks of any ticker the harness callback runs once
+		// (how a harness ends a loop that is driven by a ticker)
+		if ot, ok := ex.ghost["ontick"].(*onTick); ok && !ot.fired {
+			ot.seen++
+			if ot.seen >= ot.n {
+				ot.fired = true
+				ex.call(nil, 0, ot.f, nil)
+			}
+		}
 		return ex.clockNow(), true
 	}
 	if blocking {
@@ -790,4 +799,10 @@ func (ex *Exec) selectStmt(fr *frame, instr *ssa.Select) Value {
 		}
 	}
 	return r
+}
+
+type onTick struct {
+	n, seen int
+	f       Value
+	fired   bool
 }
